@@ -34,6 +34,8 @@ pub enum Hist {
     ReplaceByLinkToDecoy,
     Unlink,
     RenameBack,
+    /// move the handle's file to the bottom of a directory chain deeper than PATH_MAX (inside the root)
+    RenameDeep,
 }
 
 #[derive(Clone, Copy, Debug, PartialEq, Eq, Hash, Serialize, Deserialize)]
@@ -95,7 +97,7 @@ pub fn strategy() -> impl Strategy<Value = Case> {
         prop_oneof![4 => Just(Kind::File), 3 => Just(Kind::Dir), 1 => Just(Kind::Fifo), 1 => Just(Kind::Chr), 2 => Just(Kind::Symlink)],
         rflags(),
         prop_oneof![3 => Just(0), 1 => Just(1), 1 => Just(2), 3 => Just(3), 2 => Just(7), 2 => Just(255), 2 => Just(1023)],
-        vec(prop_oneof![Just(Hist::RenamePath), Just(Hist::RenameParent), Just(Hist::ReplaceByFile), Just(Hist::ReplaceByDir), Just(Hist::ReplaceByLinkToDecoy), Just(Hist::Unlink), Just(Hist::RenameBack)], 0..5),
+        vec(prop_oneof![Just(Hist::RenamePath), Just(Hist::RenameParent), Just(Hist::ReplaceByFile), Just(Hist::ReplaceByDir), Just(Hist::ReplaceByLinkToDecoy), Just(Hist::Unlink), Just(Hist::RenameBack), Just(Hist::RenameDeep)], 0..5),
         prop_oneof![3 => Just(false), 1 => Just(true)],
         prop_oneof![3 => Just(ProcState::Normal), 2 => (0u8..8).prop_map(ProcState::OverMounted)],
         prop_oneof![3 => Just(false), 1 => Just(true)],
@@ -128,6 +130,9 @@ pub struct Report {
     pub setup_problem: Option<String>,
     pub mounts: Vec<String>,
     pub private_procfs: bool,
+    /// the handle's file now lives deeper than PATH_MAX
+    #[serde(default)]
+    pub deep: bool,
 }
 
 const CREATE_FLAGS: i32 = libc::O_CREAT | libc::O_EXCL;
@@ -140,7 +145,7 @@ fn c(p: &std::path::Path) -> CString {
 }
 
 pub fn child(case: &Case) -> Report {
-    let mut rep = Report { out: Out::Unit, handle_id: None, same_inode: None, reference: String::new(), reference_getfl: None, reference_errno: None, new_entries: vec![], history_applied: vec![], setup_problem: None, mounts: vec![], private_procfs: false };
+    let mut rep = Report { out: Out::Unit, handle_id: None, same_inode: None, reference: String::new(), reference_getfl: None, reference_errno: None, new_entries: vec![], history_applied: vec![], setup_problem: None, mounts: vec![], private_procfs: false, deep: false };
     let sb = Sandbox::create("c09");
     let root = sb.root();
     // world-accessible so that the unprivileged variant can work in it
@@ -272,6 +277,36 @@ pub fn child(case: &Case) -> Report {
                     format!("unlink: {}", r)
                 } else {
                     "unlink: skipped".into()
+                }
+            }
+            Hist::RenameDeep => {
+                if exists {
+                    // 30 components of 200 bytes below the root, made step by step (no path of that length can be passed at once)
+                    let name = CString::new(vec![b'd'; 200]).unwrap();
+                    let mut cur = openat_raw(libc::AT_FDCWD, root.as_os_str().as_encoded_bytes(), libc::O_RDONLY | libc::O_DIRECTORY, 0).unwrap_or(-1);
+                    let mut okc = cur >= 0;
+                    for _ in 0..30 {
+                        if !okc {
+                            break;
+                        }
+                        unsafe { libc::mkdirat(cur, name.as_ptr(), 0o777) };
+                        let n = unsafe { libc::openat(cur, name.as_ptr(), libc::O_RDONLY | libc::O_DIRECTORY | libc::O_CLOEXEC) };
+                        unsafe { libc::fchmod(n, 0o777) };
+                        close(cur);
+                        cur = n;
+                        okc = n >= 0;
+                    }
+                    let r = okc && unsafe { libc::renameat(libc::AT_FDCWD, c(&t).as_ptr(), cur, b"target\0".as_ptr() as *const libc::c_char) } == 0;
+                    if cur >= 0 {
+                        close(cur);
+                    }
+                    if r {
+                        exists = false; // gone from the directories the later steps work in
+                        rep.deep = true;
+                    }
+                    format!("rename below a 6000-byte directory chain: {}", r)
+                } else {
+                    "rename deep: skipped".into()
                 }
             }
             Hist::RenameBack => {
@@ -537,6 +572,7 @@ pub fn judge(case: &Case, rep: &Report, stats: &mut Stats) -> Result<(), Fail> {
             }
             Ok(())
         }
+        (Out::Err { errno: Some(e), .. }, _) if rep.deep && *e == libc::ENAMETOOLONG => Err(mk("refused:ENAMETOOLONG:handle-deeper-than-PATH_MAX".into(), "the kernel opens this inode with these flags, the library refuses: it reads the /proc/thread-self/fd/N link text, which the kernel cannot produce for a path longer than PATH_MAX".into())),
         (Out::Err { errno, .. }, Some(e)) => {
             if *errno != Some(e) {
                 return Err(mk(format!("errno:{}-vs-{}:fd{}", rep.out.class(), errno_name(e), if case.fdnum == 0 { "0" } else { "N" }), "the error differs from what the kernel reports for this inode and flags".into()));
@@ -589,7 +625,7 @@ fn replay(_ctx: &Ctx, _check: &str, case: &Value) -> Result<(), Fail> {
 pub const PROP: Prop = Prop {
     id: "C09",
     level: "exploration",
-    rule: "inode type {file, dir, fifo, chr, symlink} x open flags (access mode x {APPEND, NOATIME, DIRECTORY, NOFOLLOW, CLOEXEC, SYNC, TRUNC, PATH} and the creation flags O_CREAT/O_EXCL/O_TMPFILE) x the descriptor number the handle lives at {0,1,2,3,7,255,1023, invalid} x calling thread {shares the process's descriptor table; has its own after unshare(CLONE_FILES) while the thread-group leader holds a decoy at the same number; is pid 1 / tid 1 of a fresh pid namespace while the library's procfs handle was made in the old one} x history of 0-4 rename / rename-parent / replace-by-file/dir/link-to-decoy / unlink / rename-back operations applied to the handle's path before reopening x host /proc state {normal; private mount namespace with tmpfs or bind mounts over /proc/<pid>/fd, the fd magic-link itself, /proc/<pid>/task, /proc/<pid>} x caller {root; uid 65534 without capabilities} x kernel configuration x {Handle::reopen, pathrs_reopen}. Oracle: a successful reopen has the handle's (dev,ino) -- never the impostor at the old name, never an over-mounted object; symlink handles => ELOOP; creation flags => error and no new directory entry; otherwise outcome, errno and F_GETFL equal the kernel's own open of the same inode with the same flags through the fd link of a pristine procfs; close-on-exec; callers that cannot get a private procfs may only get errors from over-mounts. non-trivial = non-empty history, fd in {0,1,2}, over-mounted /proc, or creation flags; distinct by the whole case",
+    rule: "inode type {file, dir, fifo, chr, symlink} x open flags (access mode x {APPEND, NOATIME, DIRECTORY, NOFOLLOW, CLOEXEC, SYNC, TRUNC, PATH} and the creation flags O_CREAT/O_EXCL/O_TMPFILE) x the descriptor number the handle lives at {0,1,2,3,7,255,1023, invalid} x calling thread {shares the process's descriptor table; has its own after unshare(CLONE_FILES) while the thread-group leader holds a decoy at the same number; is pid 1 / tid 1 of a fresh pid namespace while the library's procfs handle was made in the old one} x history of 0-4 steps (incl. a rename of the file below a directory chain deeper than PATH_MAX): rename / rename-parent / replace-by-file/dir/link-to-decoy / unlink / rename-back operations applied to the handle's path before reopening x host /proc state {normal; private mount namespace with tmpfs or bind mounts over /proc/<pid>/fd, the fd magic-link itself, /proc/<pid>/task, /proc/<pid>} x caller {root; uid 65534 without capabilities} x kernel configuration x {Handle::reopen, pathrs_reopen}. Oracle: a successful reopen has the handle's (dev,ino) -- never the impostor at the old name, never an over-mounted object; symlink handles => ELOOP; creation flags => error and no new directory entry; otherwise outcome, errno and F_GETFL equal the kernel's own open of the same inode with the same flags through the fd link of a pristine procfs; close-on-exec; callers that cannot get a private procfs may only get errors from over-mounts. non-trivial = non-empty history, fd in {0,1,2}, over-mounted /proc, or creation flags; distinct by the whole case",
     assumptions: &["the handle is created by the harness (O_PATH|O_NOFOLLOW open moved to the requested descriptor number) and wrapped with Handle::from_fd", "whether over-mounts are visible is decided from whether the caller can create a private procfs (fsopen/open_tree probe) and the kernel configuration"],
     lanes: |_| 16,
     run_lane,
